@@ -127,6 +127,19 @@ static void case_size(const SizeCase& c, vr::Ctx& ctx)
             else if (gRequests != 1 || st != 200)
                 ctx.violation("c14:size:request-within-limit-not-served", d);
         }
+        // a refused request must not count against the next one on the same connection
+        if (total > (size_t)c.limit && st == 413 && ends.size() > 1 && !cl.peerClosed)
+        {
+            cl.received.clear();
+            int before = gRequests;
+            cl.send_bytes("GET /next HTTP/1.1\r\nHost: h\r\n\r\n");
+            after(steps, true);
+            cl.pump();
+            int st2 = status_of(cl.received);
+            if (!cl.peerClosed && (st2 != 200 || gRequests != before + 1))
+                ctx.violation(st2 == 413 ? "c14:size:small-request-after-a-refused-one-refused-413" : "c14:size:small-request-after-a-refused-one-not-served", "{\"request\":" + vr::jstr(what) + ",\"reads_end_at\":" + vr::jstr(cuts) + ",\"status_of_next_request\":" + std::to_string(st2) + "}");
+            ctx.outcome("request after a refused one -> " + std::to_string(st2));
+        }
         ctx.outcome(std::string(total > (size_t)c.limit ? "over" : "within") + " -> " + std::to_string(st));
         ctx.state(vr::hash_str(what + cuts + std::to_string(st)));
         if (ends.size() > 1)
